@@ -1454,3 +1454,59 @@ def emitter_wiring(cx, iid):
             inst.site(gb, None, "%s = %s" % (fn, e))
             if e != want_fa:
                 inst.violation(gb.path, "base getter", "%s returns `%s`, expected `%s`" % (fn, e, want_fa))
+
+
+def ack_queue_discipline(cx, iid):
+    """T3 + T7: the receiver's queue of owed acknowledgement groups is first-in first-out and loses nothing: mark_seen
+    extends the newest group (back) or appends a new one at the back, peek shows the oldest (front), pop removes exactly
+    that one and hands it out, and nothing else touches the queue.  An emitter that peeks one end and pops the other
+    acknowledges a group it never sent and drops the one it did; a group that is popped but not returned, or never
+    popped, leaves the sender's frames unacknowledged (Reliable data is resent for ever, is_send_pending never clears)."""
+    R = cx.R
+    FAQ = "half_connection::frame_ack_queue::FrameAckQueue::"
+    with cx.instance(iid, "T3 WHO-MAY + T7 SHAPE", "FrameAckQueue: mark_seen extends/appends at the back, peek = front, pop = pop_front and returns it; no other access", floor=5) as inst:
+        pk = R.body(FAQ + "peek")
+        e = show(pk.local_expr(0))
+        inst.site(pk, None, "peek = " + e)
+        if e != "VecDeque::front(arg1.entries)":
+            inst.violation(pk.path, "peek", "FrameAckQueue::peek returns `%s`, expected the oldest group (front)" % e)
+        pp = R.body(FAQ + "pop")
+        pops = [(l, show(pp.call_expr(t))) for l, t in pp.calls() if t.get("fn") and show(pp.call_expr(t)).startswith(R.short(t["fn"]) + "(arg1.entries")]
+        inst.site(pp, None, "pop: %s" % [c for _, c in pops])
+        if [c for _, c in pops] != ["VecDeque::pop_front(arg1.entries)"]:
+            inst.violation(pp.path, "pop", "FrameAckQueue::pop accesses the queue as %s, expected exactly one pop_front" % [c for _, c in pops])
+        else:
+            from rules import case_values
+            vals = set()
+            fa = cx.fa(pp)
+            for dloc, kind, node in pp.defs.get(0, []):
+                v = show(pp.rvalue_expr(node["rv"])) if kind == "assign" else show(pp.call_expr(node))
+                alts = fa.at(dloc) or []
+                some = bool(alts) and all(any(re.fullmatch(r"is\(VecDeque::pop_front\(arg1\.entries\),Some\)", x) for x in a) for a in alts)
+                none = bool(alts) and all(any(re.fullmatch(r"is\(VecDeque::pop_front\(arg1\.entries\),None\)", x) for x in a) for a in alts)
+                vals.add((v, "Some" if some else "None" if none else "?"))
+            if not pp.defs.get(0):
+                vals.add((show(pp.local_expr(0)), "direct"))
+            inst.site(pp, None, "pop returns %s" % sorted(vals))
+            okv = vals in ({("Some{VecDeque::pop_front(arg1.entries)@Some.0}", "Some"), ("None{}", "None")}, {("VecDeque::pop_front(arg1.entries)", "direct")})
+            if not okv:
+                inst.violation(pp.path, "pop result", "FrameAckQueue::pop does not hand out the group it removed: %s" % sorted(vals))
+        ms = R.body(FAQ + "mark_seen")
+        acc = []
+        for l, t in ms.calls():
+            if t.get("fn") and show(ms.call_expr(t)).startswith(R.short(t["fn"]) + "(arg1.entries"):
+                acc.append((l, R.short(t["fn"])))
+        inst.site(ms, None, "mark_seen accesses: %s" % sorted({a for _, a in acc}))
+        if {a for _, a in acc} - {"VecDeque::back_mut", "VecDeque::push_back", "VecDeque::back", "VecDeque::is_empty", "VecDeque::len"} or "VecDeque::push_back" not in {a for _, a in acc}:
+            inst.violation(ms.path, "mark_seen", "mark_seen touches the ack queue through %s: new groups go to the back, the group extended is the newest" % sorted({a for _, a in acc}))
+        for ob in R.all_bodies():
+            if ob.path.startswith(FAQ) and ob.path.split("::")[-1] in ("mark_seen", "pop", "peek", "new"):
+                continue
+            for l, t in ob.calls():
+                if t.get("fn") and re.search(r"\.entries\b", show(ob.call_expr(t))) and "frame_ack_queue" in ob.path and "VecDeque::" in R.short(t["fn"]):
+                    inst.violation(ob.path, "ack queue access", "%s accesses the ack queue (%s)" % (ob.path.split("::")[-1], R.short(t["fn"])), at=ob.span_at(l))
+        em = R.body("HalfConnection::emit_ack_frames")
+        pk_s, po_s = call_locs(em, "FrameAckQueue::peek"), call_locs(em, "FrameAckQueue::pop")
+        inst.site(em, None, "emit_ack_frames: %d peek, %d pop" % (len(pk_s), len(po_s)))
+        if len(pk_s) != 1 or len(po_s) != 1:
+            inst.violation(em.path, "peek/pop", "emit_ack_frames should peek and pop the ack queue once per cycle")
